@@ -32,6 +32,24 @@ def to_py(v: dict):
     return {k: to_py(x) for k, x in zip(v["ks"], v["vs"])}
 
 
+def dict_in_list(v: dict, inside: bool = False) -> bool:
+    if v["t"] == "list":
+        return any(dict_in_list(x, True) for x in v["xs"])
+    if v["t"] == "dict":
+        return inside or any(dict_in_list(x, False) for x in v["vs"])
+    return False
+
+
+def model_values(tier: str) -> list[dict]:
+    """The (value, route) cases of MC_Values (cached emission); used by C13 and, for purity of built documents, by C15."""
+    cfg = f"MC_Values_{tier}.cfg"
+
+    def produce():
+        res = tlc.must_ok(tlc.run("MC_Values", cfg, workers=1, timeout=3600), "MC_Values")
+        return {"printed": res.printed, "generated": res.generated, "distinct": res.distinct, "violated": res.violated}
+    return tlc.cached(f"values-{cfg}-{tlc.spec_digest('Values')}", produce)
+
+
 def norm_value(v: dict) -> dict:
     """value as TLC sees it: float lex as chars + canonical number; strings as chars."""
     t = v["t"]
@@ -69,11 +87,7 @@ def kinds(v: dict) -> str:
 def check(tier: str, seed: int) -> int:
     run = Run("C13", tier, seed)
     cfg = f"MC_Values_{tier}.cfg"
-
-    def produce():
-        res = tlc.must_ok(tlc.run("MC_Values", cfg, workers=1, timeout=3600), "MC_Values")
-        return {"printed": res.printed, "generated": res.generated, "distinct": res.distinct, "violated": res.violated}
-    d = tlc.cached(f"values-{cfg}-{tlc.spec_digest('Values')}", produce)
+    d = model_values(tier)
     run.states += d["distinct"]
     run.transitions += d["generated"]
     run.coverage.setdefault("tlc_runs", []).append({"run": f"MC_Values/{cfg} (values x routes; lemma decode(escape(s)) = s)",
@@ -85,6 +99,8 @@ def check(tier: str, seed: int) -> int:
         v, route = m["v"], m["route"]
         if route == "nixlist" and v["t"] == "dict":
             continue                      # domain of C13: list elements are scalars or lists
+        if dict_in_list(v):
+            continue                      # (MC_Values!DictLists serve C15)
         if route in ("top",) and v["t"] == "dict" and not v["ks"]:
             pass
         cases.append({"id": len(cases) + 1, "v": v, "route": route, "pv": to_py(v)})
